@@ -351,6 +351,8 @@ package mint
 //@   tags C09 C07
 //@   safety C06 C09
 //@   requires minv(m)
+// a fee the store can represent (see storage.MintDB.SaveKeyset)
+//@   requires fee < 9223372036854775808
 //@   requires kinv(m)
 //@   requires db.ks[m.activeKeyset.Id] && db.ksrow[m.activeKeyset.Id].Active
 //@   boundary @activerow [C07,C09] exists id Str :: db.ks[id] && db.ksrow[id].Active
